@@ -12,14 +12,51 @@ package keeper
 //@ ensures  newPrice != oldPrice && oldPrice == 0 ==> result == MaxInt64
 //@ ensures  newPrice != oldPrice && oldPrice >  0 ==> result == (abs(newPrice - oldPrice) * 10000) / oldPrice
 
-// ---- C08: atomic packet production ----------------------------------------------------------------
-//@ func (k Keeper) HasEnoughFundToCreatePacket
-//@ ensures true
+// ---- C08: which prices go into a packet, and whether one is due ----------------------------------------
+// deviation of a signal: between the price last sent (0 if never sent) and the current feeds price (0 if the
+// signal is not in the current feeds)
+//@ spec devBPS(o Int, n Int) Int = n == o ? 0 : (o == 0 ? MaxInt64 : (abs(n - o) * 10000) / o)
+//@ spec lastP(m map[string]feedstypes.Price, id Str) Int = has(m, id) ? m[id].Price : 0
+//@ spec feedP(m map[string]feedstypes.Price, id Str, ts Int) feedstypes.Price = has(m, id) ? m[id] : feedstypes.Price{feedstypes.PRICE_STATUS_NOT_IN_CURRENT_FEEDS, id, 0, ts}
+//@ spec sigDev(lm map[string]feedstypes.Price, fm map[string]feedstypes.Price, id Str, ts Int) Int = devBPS(lastP(lm, id), feedP(fm, id, ts).Price)
+// A packet is due exactly when the interval has elapsed (sendAll) or some signal moved by at least its hard
+// deviation; it then carries every signal (interval) or exactly those at or beyond their soft (or hard)
+// deviation, each with its current feeds price; otherwise nothing is produced.
+//@ func GenerateNewPrices
+//@ pure
+//@ ensures (!sendAll && (forall j :: 0 <= j && j < len(signalDeviations) ==> sigDev(latestPricesMap, feedsPricesMap, signalDeviations[j].SignalID, timestamp) < signalDeviations[j].HardDeviationBPS)) ==> len(result) == 0
+//@ ensures sendAll ==> len(result) == len(signalDeviations) && (forall j :: 0 <= j && j < len(signalDeviations) ==> result[j] == feedP(feedsPricesMap, signalDeviations[j].SignalID, timestamp))
+//@ ensures (sendAll || (exists j :: 0 <= j && j < len(signalDeviations) && sigDev(latestPricesMap, feedsPricesMap, signalDeviations[j].SignalID, timestamp) >= signalDeviations[j].HardDeviationBPS)) ==>
+//@     (forall j :: 0 <= j && j < len(signalDeviations) && (sendAll || sigDev(latestPricesMap, feedsPricesMap, signalDeviations[j].SignalID, timestamp) >= signalDeviations[j].HardDeviationBPS || sigDev(latestPricesMap, feedsPricesMap, signalDeviations[j].SignalID, timestamp) >= signalDeviations[j].SoftDeviationBPS)
+//@         ==> (exists r :: 0 <= r && r < len(result) && result[r] == feedP(feedsPricesMap, signalDeviations[j].SignalID, timestamp)))
+//@ ensures forall r :: 0 <= r && r < len(result) ==> (exists j :: 0 <= j && j < len(signalDeviations) && result[r] == feedP(feedsPricesMap, signalDeviations[j].SignalID, timestamp)
+//@         && (sendAll || sigDev(latestPricesMap, feedsPricesMap, signalDeviations[j].SignalID, timestamp) >= signalDeviations[j].HardDeviationBPS || sigDev(latestPricesMap, feedsPricesMap, signalDeviations[j].SignalID, timestamp) >= signalDeviations[j].SoftDeviationBPS))
+//@ loop 0: invariant shouldSend <==> ((sendAll && #i > 0) || (exists j :: 0 <= j && j < #i && sigDev(latestPricesMap, feedsPricesMap, signalDeviations[j].SignalID, timestamp) >= signalDeviations[j].HardDeviationBPS))
+//@ loop 0: invariant sendAll ==> len(newFeedPrices) == #i && (forall j :: 0 <= j && j < #i ==> newFeedPrices[j] == feedP(feedsPricesMap, signalDeviations[j].SignalID, timestamp))
+//@ loop 0: invariant forall j :: 0 <= j && j < #i && (sendAll || sigDev(latestPricesMap, feedsPricesMap, signalDeviations[j].SignalID, timestamp) >= signalDeviations[j].HardDeviationBPS || sigDev(latestPricesMap, feedsPricesMap, signalDeviations[j].SignalID, timestamp) >= signalDeviations[j].SoftDeviationBPS)
+//@         ==> (exists r :: 0 <= r && r < len(newFeedPrices) && newFeedPrices[r] == feedP(feedsPricesMap, signalDeviations[j].SignalID, timestamp))
+//@ loop 0: invariant forall r :: 0 <= r && r < len(newFeedPrices) ==> (exists j :: 0 <= j && j < #i && newFeedPrices[r] == feedP(feedsPricesMap, signalDeviations[j].SignalID, timestamp)
+//@         && (sendAll || sigDev(latestPricesMap, feedsPricesMap, signalDeviations[j].SignalID, timestamp) >= signalDeviations[j].HardDeviationBPS || sigDev(latestPricesMap, feedsPricesMap, signalDeviations[j].SignalID, timestamp) >= signalDeviations[j].SoftDeviationBPS))
 
+// ---- C08: atomic packet production ----------------------------------------------------------------
 //@ spec tunnelAt(s Store, id Int) types.Tunnel = dec(types.Tunnel, s[types.TunnelStoreKey(id)])
+//@ spec isTSS(t types.Tunnel) Bool = typeis(types.routeOf(t), "*types.TSSRoute")
+//@ spec isIBC(t types.Tunnel) Bool = typeis(types.routeOf(t), "*types.IBCRoute")
+// fee of the tunnel's route: the bandtss signing fee for a TSS route, nothing for an IBC route
+//@ spec routeFeeOf(o OtherState, t types.Tunnel) sdk.Coins = isTSS(t) ? types.signingFee(o) : zero("sdk.Coins")
+// The fee payer can afford a packet iff its spendable balance covers, denom by denom, the base packet fee PLUS
+// the route fee.
+//@ func (k Keeper) HasEnoughFundToCreatePacket
+//@ ensures err == nil ==> has(Store_tunnel, types.TunnelStoreKey(tunnelID))
+//@ ensures err == nil ==> (isTSS(tunnelAt(Store_tunnel, tunnelID)) || isIBC(tunnelAt(Store_tunnel, tunnelID)))
+//@ ensures err == nil ==> result == ext("Coins.IsAllGTE", types.spendable(Bank, bech32addr(tunnelAt(Store_tunnel, tunnelID).FeePayer)),
+//@                                         ext("Coins.Add", tunnelParams(Store_tunnel).BasePacketFee, routeFeeOf(Other, tunnelAt(Store_tunnel, tunnelID))))
+
 // Deactivation clears the active flag and the active-index entry of exactly this tunnel.
 // store invariant: a tunnel is stored under its own id
-//@ spec wfTunnel(s Store, id Int) Bool = has(s, types.TunnelStoreKey(id)) ==> tunnelAt(s, id).ID == id
+//@ spec wfTunnel(s Store, id Int) Bool = has(s, types.TunnelStoreKey(id)) ==> (tunnelAt(s, id).ID == id && bech32ok(tunnelAt(s, id).FeePayer))
+// ... and its remembered prices under the same id
+//@ spec wfLP(s Store, id Int) Bool = has(s, types.LatestPricesStoreKey(id)) ==> dec(types.LatestPrices, s[types.LatestPricesStoreKey(id)]).TunnelID == id
 //@ func (k Keeper) DeactivateTunnel
 //@ modifies Store_tunnel
 //@ requires wfTunnel(Store_tunnel, tunnelID)
@@ -27,15 +64,75 @@ package keeper
 //@ ensures err != nil ==> Store_tunnel == old(Store_tunnel)
 //@ ensures err == nil ==> Store_tunnel == store(remove(old(Store_tunnel), types.ActiveTunnelIDStoreKey(tunnelID)), types.TunnelStoreKey(tunnelID), enc(with(old(tunnelAt(Store_tunnel, tunnelID)), "IsActive", false)))
 
-//@ func (k Keeper) ProducePacket
+//@ spec totalFeesAt(s Store) types.TotalFees = has(s, types.TotalFeeStoreKey) ? dec(types.TotalFees, s[types.TotalFeeStoreKey]) : zero(types.TotalFees)
+//@ spec lpAt(s Store, id Int) types.LatestPrices = dec(types.LatestPrices, s[types.LatestPricesStoreKey(id)])
+//@ spec packetAt(s Store, id Int, seq Int) types.Packet = dec(types.Packet, s[types.TunnelPacketStoreKey(id, seq)])
+
+// signal id -> price index of a price list (map construction; only used as an opaque function of the list)
+//@ func CreatePricesMap
+//@ pure
+//@ ensures true
+//@ loop 0: invariant true
+
+// Creating a packet charges the fee payer exactly the base packet fee, once; the packet takes the next sequence
+// number (previous + 1), carries exactly the given prices, the base fee, the route fee and the block time, and is
+// filed under (tunnel, that sequence number); the tunnel's counter is advanced to it.
+//@ func (k Keeper) CreatePacket
+//@ modifies Store_tunnel, Bank
+//@ requires wfTunnel(Store_tunnel, tunnelID)
+//@ ensures err == nil ==> old(has(Store_tunnel, types.TunnelStoreKey(tunnelID)))
+//@ ensures err == nil ==> Bank == bankA2M(old(Bank), bech32addr(old(tunnelAt(Store_tunnel, tunnelID)).FeePayer), types.ModuleName, old(tunnelParams(Store_tunnel)).BasePacketFee)
+//@ ensures err == nil ==> result.TunnelID == tunnelID && result.Sequence == wrapu64(old(tunnelAt(Store_tunnel, tunnelID)).Sequence + 1) && result.Prices == prices
+//@ ensures err == nil ==> result.BaseFee == old(tunnelParams(Store_tunnel)).BasePacketFee && result.RouteFee == routeFeeOf(Other, old(tunnelAt(Store_tunnel, tunnelID))) && result.CreatedAt == ctx.BlockTime().Unix()
+//@ ensures err == nil ==> Store_tunnel == store(store(store(old(Store_tunnel),
+//@         types.TotalFeeStoreKey, enc(with(old(totalFeesAt(Store_tunnel)), "TotalBasePacketFee", ext("Coins.Add", old(totalFeesAt(Store_tunnel)).TotalBasePacketFee, old(tunnelParams(Store_tunnel)).BasePacketFee)))),
+//@         types.TunnelStoreKey(tunnelID), enc(with(old(tunnelAt(Store_tunnel, tunnelID)), "Sequence", wrapu64(old(tunnelAt(Store_tunnel, tunnelID)).Sequence + 1)))),
+//@         types.TunnelPacketStoreKey(tunnelID, wrapu64(old(tunnelAt(Store_tunnel, tunnelID)).Sequence + 1)), enc(result))
+
+// sending (route-specific; may charge the route fee through the bandtss / ibc keepers) only rewrites the
+// packet's own record (adding the receipt)
+//@ func (k Keeper) SendPacket
 //@ trusted
 //@ modifies Store_tunnel, Bank, Other
+//@ ensures forall q Bz :: q != types.TunnelPacketStoreKey(packet.TunnelID, packet.Sequence) ==> Store_tunnel[q] == old(Store_tunnel)[q]
+//@ ensures err == nil ==> has(Store_tunnel, types.TunnelPacketStoreKey(packet.TunnelID, packet.Sequence))
+//@ ensures err == nil ==> packetAt(Store_tunnel, packet.TunnelID, packet.Sequence).Sequence == packet.Sequence && packetAt(Store_tunnel, packet.TunnelID, packet.Sequence).Prices == packet.Prices
+
+
+// A packet is produced exactly when GenerateNewPrices yields prices for (signal deviations, prices last sent,
+// current feeds prices, block time, interval elapsed); "interval elapsed" is now >= interval + last full send.
+// Nothing to send: no effect at all. Otherwise the packet takes the next sequence number, carries those prices,
+// the remembered prices are merged with them, and the interval clock restarts ONLY on an interval (full) send.
+//@ func (k Keeper) ProducePacket
+//@ modifies Store_tunnel, Bank, Other
+//@ requires wfTunnel(Store_tunnel, tunnelID) && wfLP(Store_tunnel, tunnelID)
+//@ ensures (let t = old(tunnelAt(Store_tunnel, tunnelID)) in let lp = old(lpAt(Store_tunnel, tunnelID)) in let now = ctx.BlockTime().Unix() in
+//@     let sendAll = (now >= wrap64(wrap64(t.Interval) + lp.LastInterval)) in
+//@     let np = GenerateNewPrices(t.SignalDeviations, CreatePricesMap(lp.Prices), feedsPricesMap, now, sendAll) in
+//@     (err == nil && len(np) == 0 ==> Store_tunnel == old(Store_tunnel) && Bank == old(Bank) && Other == old(Other)))
+//@ ensures (let t = old(tunnelAt(Store_tunnel, tunnelID)) in let lp = old(lpAt(Store_tunnel, tunnelID)) in let now = ctx.BlockTime().Unix() in
+//@     let sendAll = (now >= wrap64(wrap64(t.Interval) + lp.LastInterval)) in
+//@     let np = GenerateNewPrices(t.SignalDeviations, CreatePricesMap(lp.Prices), feedsPricesMap, now, sendAll) in
+//@     (err == nil && len(np) > 0 ==> tunnelAt(Store_tunnel, tunnelID).Sequence == wrapu64(t.Sequence + 1)))
+//@ ensures (let t = old(tunnelAt(Store_tunnel, tunnelID)) in let lp = old(lpAt(Store_tunnel, tunnelID)) in let now = ctx.BlockTime().Unix() in
+//@     let sendAll = (now >= wrap64(wrap64(t.Interval) + lp.LastInterval)) in
+//@     let np = GenerateNewPrices(t.SignalDeviations, CreatePricesMap(lp.Prices), feedsPricesMap, now, sendAll) in
+//@     (err == nil && len(np) > 0 ==> has(Store_tunnel, types.TunnelPacketStoreKey(tunnelID, wrapu64(t.Sequence + 1))) && packetAt(Store_tunnel, tunnelID, wrapu64(t.Sequence + 1)).Prices == np))
+//@ ensures (let t = old(tunnelAt(Store_tunnel, tunnelID)) in let lp = old(lpAt(Store_tunnel, tunnelID)) in let now = ctx.BlockTime().Unix() in
+//@     let sendAll = (now >= wrap64(wrap64(t.Interval) + lp.LastInterval)) in
+//@     let np = GenerateNewPrices(t.SignalDeviations, CreatePricesMap(lp.Prices), feedsPricesMap, now, sendAll) in
+//@     (err == nil && len(np) > 0 ==> lpAt(Store_tunnel, tunnelID).LastInterval == (sendAll ? now : lp.LastInterval)))
+//@ ensures (let t = old(tunnelAt(Store_tunnel, tunnelID)) in let lp = old(lpAt(Store_tunnel, tunnelID)) in let now = ctx.BlockTime().Unix() in
+//@     let sendAll = (now >= wrap64(wrap64(t.Interval) + lp.LastInterval)) in
+//@     let np = GenerateNewPrices(t.SignalDeviations, CreatePricesMap(lp.Prices), feedsPricesMap, now, sendAll) in
+//@     (err == nil && len(np) > 0 ==> lpAt(Store_tunnel, tunnelID).Prices == types.mergedPrices(lp.Prices, np) && lpAt(Store_tunnel, tunnelID).TunnelID == tunnelID))
+//@ ensures err == nil ==> old(has(Store_tunnel, types.TunnelStoreKey(tunnelID))) && old(has(Store_tunnel, types.LatestPricesStoreKey(tunnelID)))
 
 // If the tunnel can pay and production fails at any step, nothing of the attempt persists: the module
 // store, the bank state and every other module reached by the route are exactly as before.
 //@ func (k Keeper) ProduceActiveTunnelPacket
 //@ modifies Store_tunnel, Bank, Other
-//@ requires wfTunnel(Store_tunnel, tunnelID)
+//@ requires wfTunnel(Store_tunnel, tunnelID) && wfLP(Store_tunnel, tunnelID)
 //@ ensures err != nil ==> Bank == old(Bank) && Other == old(Other) && Store_tunnel == old(Store_tunnel)
 
 // ---- C17: deposits -----------------------------------------------------------------------------------
